@@ -314,6 +314,11 @@ impl World {
     fn process_tap(&mut self) {
         let events: Vec<TapEvent> = std::mem::take(&mut *self.tap.borrow_mut());
         for ev in events {
+            // After the first violation the model and the broker may have diverged; anything
+            // reported from later steps of the same poll would be a secondary effect.
+            if !self.violations.is_empty() {
+                break;
+            }
             match ev {
                 TapEvent::Input(input) => {
                     if self.pending_input.is_some() {
